@@ -240,7 +240,14 @@ def _clamp_forms(start_s, stop_s, length, size, fwd):
                 f"np.where({fwd}, {start_s}, np.maximum(0, {stop_s} - {length}))"]
     stop_ok = [f"np.where({fwd}, np.minimum({start_s} + {length}, {size}), {stop_s})", f"np.minimum(np.where({fwd}, {start_s} + {length}, {stop_s}), {size})",
                f"np.where({fwd}, np.minimum({size}, {start_s} + {length}), {stop_s})"]
-    return [sym.canon(sym.parse_expr(t)) for t in start_ok], [sym.canon(sym.parse_expr(t)) for t in stop_ok]
+    return [_spelled(sym.parse_expr(t)) for t in start_ok], [_spelled(sym.parse_expr(t)) for t in stop_ok]
+
+
+def _spelled(e):
+    """Normal form of an expression up to spelling: operand order of symmetric element-wise functions, np.where with an inverted condition, then sym.canon."""
+    import copy
+    from ..spelling import _Canon
+    return sym.canon(ast.fix_missing_locations(_Canon().visit(copy.deepcopy(e))))
 
 
 def r4_clamps(ctx):
@@ -276,7 +283,8 @@ def r4_clamps(ctx):
         raise Unrecognised(f"{c.where}: clip returns its input under {sorted(facts)}: cannot decide that nothing sticks out there")
     ctx.need(e is not None, "clip: replace(...) not found")
     kws = {k.arg: k.value for k in e.keywords}
-    s, t = sym.canon(kws.get("start")), sym.canon(kws.get("stop"))
+    cenv = local_env(c.node)
+    s, t = sym.canon(inline_locals(kws.get("start"), cenv)), sym.canon(inline_locals(kws.get("stop"), cenv))
     ok_s = s in (f"np.maximum(0, {iv}.start)", f"np.maximum({iv}.start, 0)")
     ok_t = t in (f"np.minimum({sizes}, {iv}.stop)", f"np.minimum({iv}.stop, {sizes})")
     ctx.ob(c.where, "clip: starts are clamped from below at 0", ok_s, s, key="C08-R4|clip-start")
@@ -293,7 +301,7 @@ def r4_clamps(ctx):
     kws = {k.arg: inline_locals(k.value, env) for k in e[0].value.keywords}
     ctx.need("start" in kws and "stop" in kws, "extend_to_size does not replace start and stop")
     fwd_forms = [f"{iv}.strand.ravel() == '+'", f"{iv}.strand == '+'"]
-    cs, ct = sym.canon(kws["start"]), sym.canon(kws["stop"])
+    cs, ct = _spelled(kws["start"]), _spelled(kws["stop"])
     ok_s = ok_t = False
     for fw in fwd_forms:
         so, to = _clamp_forms(f"{iv}.start", f"{iv}.stop", length, size, fw)
